@@ -1,7 +1,9 @@
 use crate::core::Property;
 
 pub mod c08;
+pub mod c09;
+pub mod c10;
 
 pub fn all() -> Vec<Property> {
-    vec![c08::property()]
+    vec![c08::property(), c09::property(), c10::property()]
 }
